@@ -41,6 +41,8 @@ type CaseAnyway struct {
 	// (unbounded lanes only: Cap 0); "mixed" = per item, by its number: Add*Anyway (plain if unbounded) / prior add /
 	// - on the two-lane queue - the other lane
 	Entries string `json:"entries,omitempty"`
+	// PopAnyway (drain): which blocking pop the consumers use: "" Pop, "all" PopAnyway, "mixed" alternating by consumer
+	PopAnyway string `json:"pop_anyway,omitempty"`
 }
 
 var anywayKinds = []string{qadapt.KindQ, qadapt.KindAsync, qadapt.KindMux, qadapt.KindMQ}
@@ -75,6 +77,7 @@ func GenAnyway(t *rapid.T) CaseAnyway {
 		c.Consumers = append(c.Consumers, n)
 		left -= n
 	}
+	c.PopAnyway = rapid.SampledFrom([]string{"", "all", "mixed"}).Draw(t, "popanyway")
 	return c
 }
 
@@ -217,8 +220,12 @@ func ExecAnyway(c CaseAnyway) *vkit.Result {
 	for ci, n := range c.Consumers {
 		sched.Go(fmt.Sprintf("consumer-%d", ci), func() {
 			<-start
+			pop := q.Pop
+			if c.PopAnyway == "all" || (c.PopAnyway == "mixed" && ci%2 == 1) {
+				pop = q.PopAnyway // the same on an open queue
+			}
 			for j := 0; j < n; j++ {
-				v, closed, err := q.Pop()
+				v, closed, err := pop()
 				if err != nil || closed {
 					note("consumer %d: Pop returned (closed %v, err %v) on an open queue", ci, closed, err)
 					return
@@ -296,12 +303,15 @@ func ExecAnyway(c CaseAnyway) *vkit.Result {
 	if c.Entries != "" {
 		res.Class("drain-entries-" + c.Entries)
 	}
+	if c.PopAnyway != "" {
+		res.Class("drain-by-PopAnyway-consumers")
+	}
 	return res
 }
 
 var PartAnyway = &vkit.Part[CaseAnyway]{
 	Property: Property, Name: "anyway-producers",
-	Rule:  "rapid: bounded pipe queues (q, async, mux, mq req/ctrl lane; capacity 1-3), retry pause 1 us - 2 ms. drain: 1-5 producers push 1-4 items each through Add*Anyway - or, per item, through the ordinary add (unbounded lanes), the prior add or the other lane of the two-lane queue - and 1-3 consumers take all of them with the blocking Pop, nobody closes; at quiescence everybody must have finished and the items handed out equal the items accepted (consumers asleep while every remaining producer polls a full lane is decided as a lost wake-up, not waited for). close: lane filled to capacity, one producer inside Add*Anyway, Close, then 1..cap PopAnyway: the producer's add must come back closed and the drain yields exactly the pre-filled items. Non-trivial: >= 2 producers and more items than capacity, or the close mode; distinct = distinct case JSON",
+	Rule:  "rapid: bounded pipe queues (q, async, mux, mq req/ctrl lane; capacity 1-3), retry pause 1 us - 2 ms. drain: 1-5 producers push 1-4 items each through Add*Anyway - or, per item, through the ordinary add (unbounded lanes), the prior add or the other lane of the two-lane queue - and 1-3 consumers take all of them with the blocking Pop (all of them, none or every other one through PopAnyway), nobody closes; at quiescence everybody must have finished and the items handed out equal the items accepted (consumers asleep while every remaining producer polls a full lane is decided as a lost wake-up, not waited for). close: lane filled to capacity, one producer inside Add*Anyway, Close, then 1..cap PopAnyway: the producer's add must come back closed and the drain yields exactly the pre-filled items. Non-trivial: >= 2 producers and more items than capacity, or the close mode; distinct = distinct case JSON",
 	Quick: 300, Thorough: 2000,
 	Gen: GenAnyway, Exec: ExecAnyway,
 }
